@@ -145,7 +145,7 @@ HAND["<ser::flavors::Cobs<B> as Flavor>::finalize"] = spec([
 ], {"tag(#3)": {"dom": [0, 1]}, "tag(#4)": {"dom": [0, 1]}})
 HAND["<ser::flavors::Cobs<B> as ->::try_new"] = spec([
     ("#1 = <B as Flavor>::try_push(&{arg1}, 0) => Result::Err(Error::SerializeBufferFull)", [[T("tag(#1)", 1)]]),
-    ("#1 = <B as Flavor>::try_push(&{arg1}, 0); #2 = <cobs::EncoderState as Default>::default() => Result::Ok(Cobs{cobs: #2, flav: after#1(~)})", [[T("tag(#1)", 0)]]),
+    ("#1 = <B as Flavor>::try_push(&{arg1}, 0) => Result::Ok(Cobs{cobs: default::<cobs::EncoderState,cobs::EncoderState>(), flav: after#1(~)})", [[T("tag(#1)", 0)]]),
 ], {"tag(#1)": {"dom": [0, 1]}})
 
 
